@@ -44,6 +44,7 @@ func init() {
 			{ID: "C01-R17", Title: "stores to resolved names test constness first", Floor: 4, Run: storesToResolvedNamesCheckConstness},
 			{ID: "C01-R18", Title: "computed messages are not used as format strings", Floor: 1, Run: messagesAreNotFormats},
 			{ID: "C01-R19", Title: "break leaves the loop and continue stays in it (patch targets)", Floor: 2, Run: loopExitTargets},
+			{ID: "C01-R20", Title: "operands are compiled in source order", Floor: 10, Run: operandsCompiledInSourceOrder},
 		},
 	})
 }
